@@ -46,6 +46,8 @@ use crate::{
         StepEnd,
         StepMonitor,
         run_stepped,
+        run_stepped_on,
+        BusResult,
     },
     world::{
         Outcome,
@@ -797,14 +799,24 @@ struct TxRun {
 
 /// plain run + stepped run with the monitor (+ cache differential); merges the verdicts
 /// if both runs agree
-fn run_tx(w: &World, ready: Ready<Script>, model: Model, writers: BTreeMap<(ContractId, Key), (u8, u64)>, tx_no: u8, free_gas: bool, bus: &BusOpts, replay: &Value, rep: &mut Report) -> Option<TxRun> {
+fn run_tx(w: &World, ready: Ready<Script>, model: Model, writers: BTreeMap<(ContractId, Key), (u8, u64)>, tx_no: u8, free_gas: bool, bus: &BusOpts, replay: &Value, rep: &mut Report, reuse: Option<Vm>) -> Option<TxRun> {
     // the stepped run goes first: it is cut at the step cap, whereas a plain run of a
     // generated program with an (almost) endless loop never ends under the free schedule
     let mut mon = KvMon::new(w, model, writers, tx_no);
     let mut case_rep = Report::new();
     let res = {
         let mut refs: Vec<&mut dyn StepMonitor> = vec![&mut mon];
-        run_stepped(w, ready.clone(), bus, &mut refs, &mut case_rep)
+        match reuse {
+            None => run_stepped(w, ready.clone(), bus, &mut refs, &mut case_rep),
+            // the interpreter instance (memory, slot cache, frames) of the previous
+            // transaction is used again, as a long-lived client does; only its storage
+            // is replaced by what the client would have after commit / rollback
+            Some(mut vm) => {
+                *AsMut::<RecStorage>::as_mut(&mut vm) = RecStorage::new(w.storage.clone());
+                let p = run_stepped_on(w, &mut vm, ready.clone(), bus, &mut refs, &mut case_rep);
+                BusResult { outcome: p.outcome, vm, steps: p.steps, truncated: p.truncated, host_panic: p.host_panic }
+            }
+        }
     };
     rep.count_n("steps_monitored", res.steps);
     attach(&mut case_rep, replay);
@@ -871,15 +883,42 @@ fn one_case(seed: u64, worker: u64, idx: u64, rep: &mut Report) {
     rep.count("cases");
     let bus = BusOpts { capture_mem: true, max_steps: 20_000 };
     let free = o.schedule == 2;
-    let Some(t1) = run_tx(&sc.world, ready, model_of_storage(&sc.world.storage), BTreeMap::new(), 1, free, &bus, &replay, rep) else {
+    let Some(t1) = run_tx(&sc.world, ready, model_of_storage(&sc.world.storage), BTreeMap::new(), 1, free, &bus, &replay, rep, None) else {
         return;
     };
     if idx < 1 && worker == 0 {
         rep.sample(|| json!({"case": replay, "end_state": format!("{:?}", t1.plain.state), "receipts": t1.plain.receipts.len(), "storage_steps_completed": t1.mon.storage_steps_completed}));
     }
-    // second transaction on the state left by the first (the client commits a
-    // successful script; a failed one is rolled back as a whole, so nothing carries over)
-    if idx % 2 != 0 || !t1.ok || t1.mon.lost.is_some() || !t1.mon.final_equal {
+    // second transaction on the state left by the first. The client commits a successful
+    // script; a failed one is rolled back as a whole, so nothing may carry over - not
+    // even through the interpreter instance, which half of the time is the one that ran
+    // the first transaction (slot cache, memory, frames of a long-lived client).
+    if !t1.ok {
+        // rolled back: the second transaction starts from the ORIGINAL storage
+        if t1.mon.storage_steps_completed == 0 || idx % 2 != 0 {
+            return;
+        }
+        let mut spec2 = sc.spec.clone();
+        if rng.bool() {
+            let n = 2 + rng.below(o.script_snippets as u64) as usize;
+            spec2.script = prog::generate(&mut rng, &sc.env, Mode::Script, o.weights.clone(), n).bytes;
+        }
+        // else: the same script again (with enough gas it retraces the rolled-back accesses)
+        spec2.gas_limit = 100_000 + rng.below(200_000);
+        let Ok(ready2) = spec2.ready(&sc.world, idx ^ 0x5eed_0000_0000) else {
+            rep.count("generated_tx_rejected_by_checks");
+            return;
+        };
+        rep.count("second_transactions_after_rolled_back_first");
+        if let Some(t2) = run_tx(&sc.world, ready2, model_of_storage(&sc.world.storage), BTreeMap::new(), 2, free, &bus, &replay, rep, Some(t1.vm)) {
+            rep.count("second_transactions_on_reused_interpreter");
+            if t2.mon.storage_steps_completed > 0 {
+                rep.count("second_transactions_after_rollback_with_storage_activity");
+            }
+        }
+        return;
+    }
+    if idx % 2 != 0 || t1.mon.lost.is_some() || !t1.mon.final_equal {
         return;
     }
     let mut w2 = sc.world.clone();
@@ -899,7 +938,12 @@ fn one_case(seed: u64, worker: u64, idx: u64, rep: &mut Report) {
     };
     rep.count("second_transactions");
     let carried: u64 = t1.mon.model.values().map(|kv| kv.slots.len() as u64).sum();
-    if let Some(t2) = run_tx(&w2, ready2, t1.mon.model, t1.mon.writers, 2, free, &bus, &replay, rep) {
+    let reuse = if idx % 4 == 0 { Some(t1.vm) } else { None };
+    let reused = reuse.is_some();
+    if let Some(t2) = run_tx(&w2, ready2, t1.mon.model, t1.mon.writers, 2, free, &bus, &replay, rep, reuse) {
+        if reused {
+            rep.count("second_transactions_on_reused_interpreter");
+        }
         if t2.mon.storage_steps_completed > 0 && carried > 0 {
             rep.count("second_transactions_with_storage_activity_on_carried_state");
         }
